@@ -22,6 +22,7 @@ type Contract struct {
 	EnsuresErr []*Clause // when the error result is non-nil
 	Modifies   []*Clause
 	HasModifies bool
+	ModHeaps   []string // whole heap arrays that may be written (coarse frame)
 	ModAll     bool
 	Pure       bool
 	LoopInv    map[int][]*Clause
@@ -303,6 +304,10 @@ func (w *World) addClause(cur *Contract, pkgPath, path, kind, arg, text string, 
 		}
 		for _, p := range splitTop(t, ',') {
 			p = strings.TrimSpace(p)
+			if strings.HasPrefix(p, "heap:") {
+				cur.ModHeaps = append(cur.ModHeaps, strings.TrimPrefix(p, "heap:"))
+				continue
+			}
 			e, err := ParseExpr(p)
 			if err != nil {
 				return fail(err)
